@@ -27,7 +27,10 @@ V(cl, s) == [class |-> cl, sig |-> s]
 SharedSet(s) == {s.shared[i] : i \in 1..Len(s.shared)}
 \* coarse name of a step: the operation; every mutate step is just "mutate"
 OpName(s) == IF s.a = "mutate" THEN "mutate" ELSE s.op
-Zero == [vs |-> {}, eff |-> 0, der |-> 0, pan |-> 0, skip |-> 0, noop |-> 0, n |-> 0, hang |-> 0]
+NoCount == [x \in {} |-> 0]
+Inc(f, k) == IF k \in DOMAIN f THEN [f EXCEPT ![k] = @ + 1] ELSE f @@ (k :> 1)
+Merge(f, g) == [k \in DOMAIN f \cup DOMAIN g |-> (IF k \in DOMAIN f THEN f[k] ELSE 0) + (IF k \in DOMAIN g THEN g[k] ELSE 0)]
+Zero == [vs |-> {}, eff |-> 0, der |-> 0, pan |-> 0, skip |-> 0, noop |-> 0, n |-> 0, hang |-> 0, act |-> NoCount, kind |-> ""]
 
 JudgeStep(i, s, st) ==
   LET before == [o |-> st.o, c |-> st.c]
@@ -61,7 +64,9 @@ JudgeStep(i, s, st) ==
       pan |-> st.pan + (IF pan THEN 1 ELSE 0),
       skip |-> st.skip + (IF skp THEN 1 ELSE 0),
       noop |-> st.noop + (IF s.a = "mutate" /\ ~skp /\ ~pan /\ ~s.eff THEN 1 ELSE 0),
-      n |-> st.n + 1, hang |-> 0]
+      n |-> st.n + 1, hang |-> 0, kind |-> st.kind,
+      \* vacuity measure: derived steps whose result differed from its input ("act", reported by the driver), per operation
+      act |-> IF s.a = "derived" /\ ~pan /\ Has(s, "act") /\ s.act THEN Inc(st.act, "act_" \o st.kind \o "_" \o s.op) ELSE st.act]
 
 RECURSIVE Run(_, _, _)
 Run(steps, i, st) == IF i > Len(steps) THEN st ELSE Run(steps, i + 1, JudgeStep(i, steps[i], st))
@@ -72,9 +77,9 @@ Result(r) ==
   ELSE IF Has(r.obs, "harness_panic") THEN [Zero EXCEPT !.vs = {V("harness-panic", "")}]
   ELSE IF Has(r.obs, "err") THEN [Zero EXCEPT !.vs = {V("rejected", "")}]
   ELSE IF Has(r.obs, "clonepanic") THEN [Zero EXCEPT !.vs = {V("clone-panic", r.kind)}]
-  ELSE Run(r.obs.steps, 1, Zero @@ [o |-> NoTree, c |-> NoTree, shared |-> {}])
+  ELSE Run(r.obs.steps, 1, [Zero EXCEPT !.kind = r.kind] @@ [o |-> NoTree, c |-> NoTree, shared |-> {}])
 
-Init == l = 1 /\ acc = [nt |-> 0, steps |-> 0, eff |-> 0, der |-> 0, pan |-> 0, skip |-> 0, noop |-> 0, hang |-> 0]
+Init == l = 1 /\ acc = [nt |-> 0, steps |-> 0, eff |-> 0, der |-> 0, pan |-> 0, skip |-> 0, noop |-> 0, hang |-> 0, act |-> NoCount]
 Step == /\ l <= Len(Trace)
         /\ LET r == Trace[l] res == Result(r) IN
              /\ \A v \in res.vs : CSVWrite("%1$s", <<ToJson([id |-> r.id, class |-> v.class, sig |-> v.sig])>>, IOEnv.VERDICT_FILE)
@@ -83,12 +88,12 @@ Step == /\ l <= Len(Trace)
              /\ acc' = [nt |-> acc.nt + (IF res.eff + res.der > 0 THEN 1 ELSE 0),
                         steps |-> acc.steps + res.n, eff |-> acc.eff + res.eff, der |-> acc.der + res.der,
                         pan |-> acc.pan + res.pan, skip |-> acc.skip + res.skip, noop |-> acc.noop + res.noop,
-                        hang |-> acc.hang + res.hang]
+                        hang |-> acc.hang + res.hang, act |-> Merge(acc.act, res.act)]
         /\ l' = l + 1
 Finish == /\ l = Len(Trace) + 1
           /\ CSVWrite("%1$s", <<ToJson([judged |-> Len(Trace), nontrivial |-> acc.nt, steps |-> acc.steps,
                                         effective_steps |-> acc.eff, derived_steps |-> acc.der, step_panics |-> acc.pan,
-                                        skipped_steps |-> acc.skip, mutate_noop |-> acc.noop, hangs |-> acc.hang])>>, IOEnv.STATS_FILE)
+                                        skipped_steps |-> acc.skip, mutate_noop |-> acc.noop, hangs |-> acc.hang] @@ acc.act)>>, IOEnv.STATS_FILE)
           /\ l' = l + 1 /\ UNCHANGED acc
 Next == Step \/ Finish
 Spec == Init /\ [][Next]_vars
